@@ -25,6 +25,40 @@ Proof.
   apply forallb_forall. intros v Hv. apply finite_dot. rewrite forallb_forall in H. apply H. exact Hv.
 Qed.
 
+Lemma finite_fmin a b : finite a = true -> finite b = true -> finite (fmin a b) = true.
+Proof. destruct a, b; cbn; try discriminate; intros _ _. destruct (Qle_bool q q0); reflexivity. Qed.
+
+Lemma finite_fold_fmin l : forall a, finite a = true -> forallb finite l = true -> finite (fold_left fmin l a) = true.
+Proof.
+  induction l as [|x l IH]; intros a Ha H; [exact Ha|]. cbn in H. apply andb_true_iff in H as [Hx Hl].
+  cbn. apply IH; [apply finite_fmin; assumption| exact Hl].
+Qed.
+
+Lemma finite_utopia vs : vs <> [] -> forallb (forallb finite) vs = true -> forallb finite (utopia vs) = true.
+Proof.
+  intros Hne H. unfold utopia. rewrite forallb_map. apply forallb_forall. intros j _.
+  destruct vs as [|v vs]; [congruence|]. unfold colz. cbn [map fminl].
+  assert (Hn : forall u, In u (v :: vs) -> finite (nth j u (Fin 0)) = true).
+  { intros u Hu. rewrite forallb_forall in H. specialize (H u Hu). destruct (Nat.lt_ge_cases j (length u)) as [L|L].
+    - rewrite forallb_forall in H. apply H. apply nth_In. exact L.
+    - rewrite nth_overflow by exact L. reflexivity. }
+  apply finite_fold_fmin; [apply Hn; left; reflexivity|].
+  rewrite forallb_map. apply forallb_forall. intros u Hu. apply Hn. right. exact Hu.
+Qed.
+
+Lemma finite_fneg a : finite a = true -> finite (fneg a) = true.
+Proof. destruct a; cbn; auto. Qed.
+
+Lemma scal_lin_u_ok w : scalarizer_ok (scal_lin_u w).
+Proof.
+  intros vs. unfold scal_lin_u. split; [apply map_length|]. intros H.
+  destruct vs as [|v0 vs0] eqn:E; [reflexivity|]. rewrite <- E in *.
+  assert (Hne : vs <> []) by (rewrite E; discriminate).
+  rewrite forallb_map. apply forallb_forall. intros v Hv.
+  apply finite_fadd; [apply finite_dot; rewrite forallb_forall in H; apply H; exact Hv|].
+  apply finite_fneg, finite_dot, finite_utopia; assumption.
+Qed.
+
 (* after scalarisation every entry is the marker or one finite number *)
 Definition scalar_clean (t : told) : bool := match t with TNum x => finite x | TFail => true | TVec _ => false end.
 
